@@ -171,8 +171,11 @@ fn run_cli(tokens: &[&str], errno: Option<i32>) -> String {
                 } else {
                     typed_call(&mut ctx, &req, &shared, budget, errno)
                 };
-                let acc = hex(&shared.lock().unwrap().accepted);
-                format!("{res} w={acc}")
+                let (acc, q) = {
+                    let sh = shared.lock().unwrap();
+                    (hex(&sh.accepted), sh.rq.len())
+                };
+                format!("{res} w={acc} q={q}")
             }
             ["slave", n] => match n.parse::<u8>() {
                 Ok(n) => {
